@@ -624,6 +624,22 @@ Check C20_parse_model_close : forall t, mant14_shape t = true ->
 Print Assumptions C20_parse_model_close.
 Print Assumptions C20_names.
 
+(* ---- two models of str::parse::<f64> agree: on every mantissa text -?d.d+ the display model's parser
+        returns exactly C16's reference value rn_decimal (NumText.v; proved to be IEEE nearest-even in
+        C16_rn_decimal_correct and compared with Rust's from_str by the C16 NUMTEXT stream) ---- *)
+Require Blots.NumText Blots.proofs.DisplayNumDischarge8.
+Theorem C20_parse_model_is_C16_reference : forall neg d fp,
+  is_digit d = true -> all_digits fp = true ->
+  parse_f64_exec (mk_plain neg [d] (Some fp)) =
+  Some (NumText.rn_decimal neg (digits_value (d :: fp)) (- Z.of_nat (length fp))).
+Proof. exact DisplayNumDischarge8.parse_f64_exec_is_rn_decimal. Qed.
+Check C20_parse_model_is_C16_reference : forall neg d fp,
+  is_digit d = true -> all_digits fp = true ->
+  parse_f64_exec (mk_plain neg [d] (Some fp)) =
+  Some (NumText.rn_decimal neg (digits_value (d :: fp)) (- Z.of_nat (length fp))).
+Print Assumptions C20_parse_model_is_C16_reference.
+Print Assumptions C20_names.
+
 (* ---- the remaining hypotheses of C20_wellformed_total, for the executable models: {:.14e} has the
         documented shape -?d.d+e-?d+ on every valid finite double (zeros included) ---- *)
 Theorem C20_fmt_exp14_model_shape : forall x,
